@@ -4,7 +4,11 @@
 (* ledger (GA): collecting from iterators (Collect), the record-level      *)
 (* checks (views, layout, comparison, hex, ...) that need no ledger state. *)
 (***************************************************************************)
-EXTENDS Serde
+EXTENDS Macros
+
+Ly == INSTANCE Layout
+Hx == INSTANCE Hex
+Cp == INSTANCE Compare
 
 xVars == <<mem, hx>>
 
@@ -41,6 +45,16 @@ XEvent(r) ==
     \/ /\ r.ev = "selem" /\ SElem /\ UNCHANGED xVars
     \/ /\ r.ev = "selem_ret" /\ SElemRet(r) /\ UNCHANGED xVars
     \/ /\ r.ev = "mkde" /\ MkDe(IF Anonymous THEN NewId ELSE r.id) /\ UNCHANGED xVars
+    \/ /\ r.ev = "layout" /\ Ly!LayoutRecOK(r) /\ UNCHANGED <<gaVars, xVars>>
+    \/ /\ r.ev = "elemoff" /\ Ly!ElemOffOK(r) /\ UNCHANGED <<gaVars, xVars>>
+    \/ /\ r.ev = "cdef" /\ Ly!CDefOK(r) /\ UNCHANGED <<gaVars, xVars>>
+    \/ /\ r.ev = "zeroize" /\ Ly!ZeroizeOK(r) /\ UNCHANGED <<gaVars, xVars>>
+    \/ /\ r.ev = "hex" /\ Hx!HexOK(r) /\ UNCHANGED <<gaVars, xVars>>
+    \/ /\ r.ev = "cmp" /\ Cp!CmpOK(r) /\ UNCHANGED <<gaVars, xVars>>
+    \/ /\ r.ev = "ordcmp" /\ Cp!OrdOK(r) /\ UNCHANGED <<gaVars, xVars>>
+    \/ /\ r.ev = "dbg" /\ Cp!DbgOK(r) /\ UNCHANGED <<gaVars, xVars>>
+    \/ /\ r.ev = "macro" /\ MacroOK(r) /\ UNCHANGED <<gaVars, xVars>>
+    \/ /\ r.ev = "constrt" /\ ConstRtOK(r) /\ UNCHANGED <<gaVars, xVars>>
     \/ /\ r.ev = "big" /\ BigOK(r) /\ UNCHANGED <<gaVars, xVars>>
     \/ /\ r.ev = "big_done" /\ r.ok /\ UNCHANGED <<gaVars, xVars>>
 =============================================================================
